@@ -155,6 +155,9 @@ import fam_sets as FS
 import fam_sat as FT
 import fam_vparse as FV
 import fam_nopanic as FN
+import fam_range as FR
+CLASSIFIERS['range_sat'] = lambda cls, f: f.get('kind') == 'range_sat' and f.get('rule') == cls.get('rule')
+CLASSIFIERS['range_roundtrip'] = lambda cls, f: f.get('kind') == 'range_roundtrip' and f.get('rule') == cls.get('rule')
 CLASSIFIERS['vparse_accept'] = lambda cls, f: f.get('kind') == 'vparse-loose-accept'
 CLASSIFIERS['vparse_roundtrip'] = lambda cls, f: f.get('kind') == 'vparse-rt-hyphenless-maxlen'
 
@@ -166,6 +169,26 @@ PROPERTIES = {
                 'non-trivial = distinct pairs with equal major.minor.patch (the comparison is decided by the prerelease identifiers) and distinct lists of 3+ versions',
         'explanation': 'theorems: vcmp is a total preorder, == iff Equal iff the four compared fields coincide iff equal hash keys, build ignored, '
                        'vcmp = Lt iff the inductive SemVer-11 relation, stable sort / max / min consistent with it',
+    },
+    'C01': {
+        'families': [{'name': 'npm', 'gen': FR.gen_npm, 'eval': FR.eval_npm}],
+        'rule': 'npm family: exhaustive desugaring-table sweep, hyphen ranges, conjunctions, multi-alternative ranges, each rendered canonically and with loose spellings, evaluated on the induced version universe; '
+                'the crate answer is compared with npm_admits (Coq specification, extracted) and with an independent Python reading; the parsed structure is compared with what the tables give for the syntax tree; '
+                'non-trivial = texts that admit at least one probed version',
+        'explanation': 'theorems: see Props/C01.v',
+    },
+    'C02': {
+        'families': [{'name': 'andor', 'gen': FR.gen_andor, 'eval': FR.eval_andor}],
+        'rule': 'andor family: pairs of comparator lists a, b and the texts `a b`, `b a`, `a || b`, `b || a` (and three-way variants, arbitrary ranges around `||`), satisfies and bounds membership on the induced versions; '
+                'non-trivial = pairs for which some probed version lies within the bounds of both (non-empty conjunction)',
+        'explanation': 'theorems: the AND-fold of comparator intervals is satisfied iff all bounds hold and (release or some comparator bound is tagged on the tuple); release/prerelease conjunction laws; never widens; '
+                       '`||` is list concatenation = union; permutation invariance of comparators and alternatives',
+    },
+    'C13': {
+        'families': [{'name': 'rprint', 'gen': FR.gen_rprint, 'eval': FR.eval_rprint}],
+        'rule': 'rprint family: Display of parsed ranges (table sweep + random) and of set-operation results, parsed back and compared structurally and pointwise, printed again, serde round trip; '
+                'non-trivial = multi-alternative ranges and results of set operations',
+        'explanation': 'theorems: see Props/C13.v',
     },
     'C03': {
         'families': [{'name': 'sat-gate', 'gen': FT.gen_gate, 'eval': FT.eval_gate}],
